@@ -264,6 +264,7 @@ theorem decodeNode_mmap (σ : Schema) (fuel : Nat) (env : List (String × Node))
           let (ps, ds) ← decodePairsFull σ fuel env k v kty vty count old ds
           .ok (.mmap ps, ds)
       else do
+        let ds := if old.length > 62 then { ds with dictViolations := ds.dictViolations + 1 } else ds
         let (ps, ds) ← decodeValuesOnly σ fuel env v (x >>> 1).toNat 0 old ds
         .ok (.mmap ps, ds)) := by
   cases cur <;> (simp only [decodeNode, mmapPairs]; try rfl)
@@ -617,6 +618,22 @@ theorem structFull_sim (f : Nat) (hf : SFields A B f) (env' : List (String × No
     exact setDict_rel dn (F2.append hcur' (F2.cons hnew F2.nil)) hd2
 
 omit hAB hC in
+theorem pairRel_length {kk vk : String} : ∀ {xa xb : List (St × St)}, PairRel A kk vk xa xb → xa.length = xb.length
+  | _, _, .nil _ _ => rfl
+  | _, _, .cons _ _ _ _ _ _ _ _ _ _ hr => by simp [pairRel_length hr]
+
+omit hAB hC in
+/-- the values-only branch of the multimap decoder counts a specification violation when the
+    previous value has more than 62 pairs: the same on both sides (related values have equal length) -/
+theorem dsrel_count {dsa : DS} {t : List (String × List (Option St))} (n : Nat)
+    (h : DictRel A dsa.tdict t) :
+    DSRel A (if n > 62 then { dsa with dictViolations := dsa.dictViolations + 1 } else dsa)
+      (if n > 62 then { withT dsa t with dictViolations := (withT dsa t).dictViolations + 1 } else withT dsa t) := by
+  by_cases hn : n > 62
+  · rw [if_pos hn, if_pos hn]; exact ⟨t, rfl, h⟩
+  · rw [if_neg hn, if_neg hn]; exact ⟨t, rfl, h⟩
+
+omit hAB hC in
 theorem dsrel_setCol {dsa : DS} {t : List (String × List (Option St))} (col : Nat) (c : ColSt)
     (h : DictRel A dsa.tdict t) : DSRel A (dsa.setCol col c) ((withT dsa t).setCol col c) := ⟨t, rfl, h⟩
 
@@ -742,7 +759,9 @@ theorem node_step (f : Nat) (hn : SNode A B f) (hf : SFields A B f) (he : SElems
         obtain ⟨⟨ps, ds1⟩, h3, h4⟩ := bind_ok _ _ _ h2
         simp only at h4
         injection h4 with h4; injection h4 with h5 h6; subst h5; subst h6
-        obtain ⟨psb, ds1b, hb, hps, hds1⟩ := hv _ _ _ _ _ _ _ _ _ _ _ _ henv' hnk2 hold (dsrel_setCol _ _ hdict) h3
+        rw [← pairRel_length hold, hsc]
+        obtain ⟨psb, ds1b, hb, hps, hds1⟩ := hv _ _ _ _ _ _ _ _ _ _ _ _ henv' hnk2 hold
+          (dsrel_count (A := A) (mmapPairs ca).length (dsa := dsa.setCol col { dsa.col col with bytes := rest }) (t := t) hdict) h3
         refine ⟨.mmap psb, ds1b, ?_, KRel.mmap key k v _ _ hfind hps, hds1⟩
         simp only [hb]
 
